@@ -87,7 +87,7 @@ def run_dag_case(v, case, rng, scratch, keys):
     log = probes.new_log(scratch)
     try:
         with quiet():
-            pipeline = daggen.build_pipeline(case, log=log)
+            pipeline = daggen.build_pipeline(case, log=log, explicit_defaults=bool(rng.random() < 0.5))
     except Exception as e:  # noqa: BLE001
         v.bad(exc_sig(e, "refused-construct"), f"valid DAG refused: {exc_msg(e)}", case=daggen.describe(case))
         return
